@@ -38,6 +38,8 @@ def indexed_file(draw, tier, max_records=30, min_records=1):
             rec["name"] = rec["name"] + " comment=%d" % i
         elif draw(st.integers(0, 9)) == 0:
             rec["name"] = "#" + rec["name"] + "/ccs"  # a read name may start with any printable character
+        elif draw(st.integers(0, 9)) == 0:
+            rec["name"] = draw(st.sampled_from(["se\u00f1al_%d", "M\u00fcller/%d/ccs", '"hg"/%d'])) % i  # text files are UTF-8
         lines.append(conv.stable_line(g["nodes"], rec) if stable else gen_gaf.record_line(rec))
     data_len = sum(len(l) + 1 for l in lines)
     comp = None
